@@ -49,11 +49,13 @@ StackVerdict(r) ==
                 \E axis \in 0..2 : \E n \in 0..(Count(axis, r.nx, r.ny, r.nz) - 1) :
                     Len(r.slices[axis + 1][n + 1]) # Cardinality(Slice(r.nx, r.ny, r.nz, axis, n))
           [] c = "delete" -> \E d \in Range(r.deleted) : d.missing # << d.addr >> }
-\* round shapes: entity e has flags <<in_core, in_shell, touches_outer>>
+\* round shapes: entity e has flags <<in_core, in_shell, touches_outer, coherent>>; coherent: the operation addressed at
+\* a grid location is made of the faces of THAT location at both of its ends (always TRUE for the faces of a sketch)
 RoundVerdict(r) ==
-    { c \in {"not-a-partition", "core-touches-outer", "shell-inside"} :
+    { c \in {"not-a-partition", "core-touches-outer", "shell-inside", "ends-from-different-locations"} :
         CASE c = "not-a-partition" -> \E e \in Range(r.entities) : e[1] = e[2]
           [] c = "core-touches-outer" -> \E e \in Range(r.entities) : e[1] /\ e[3]
-          [] c = "shell-inside" -> \E e \in Range(r.entities) : e[2] /\ ~e[3] }
+          [] c = "shell-inside" -> \E e \in Range(r.entities) : e[2] /\ ~e[3]
+          [] c = "ends-from-different-locations" -> \E e \in Range(r.entities) : ~e[4] }
 JEmit == PrintT(ToJson([id |-> s.id, fails |-> IF s.kind = "stack" THEN StackVerdict(s) ELSE RoundVerdict(s)]))
 =============================================================================
